@@ -48,6 +48,11 @@ var PosSchemaFaults = []string{
 	`extend interface Node { id: ID! }`,
 	`extend input Filter { name: String }`,
 	`extend union Result = Pet`,
+	// a member that breaks an interface contract arrives through an extension, the type itself may sit in another source
+	`extend type Person implements Named { name: Int }`,
+	`extend type Person implements Named { name(extra: Int!): String }`,
+	`extend interface Named { nick(short: Boolean): String } extend type Pet { nick: String }`,
+	`extend interface Named { nick(short: Boolean): String } extend type Pet { nick(short: Int): String }`,
 }
 
 // PosQueries: documents that make every validation rule report at least one error against
